@@ -93,10 +93,21 @@ func (c04) Generate(r *engine.Rand, index int, tier string) *engine.Scenario {
 	sc.Class = "sequence"
 	g.noOAM = index%4 == 2
 	n := r.Range(2, 8)
+	lastEI := false
 	for i := 0; i < n; i++ {
+		if !lastEI && r.Chance(1, 12) {
+			// HALT (not directly behind EI: that corner is documented in more than one way): the boundary
+			// at which the CPU wakes is a boundary like any other - dispatch if the master enable is set,
+			// otherwise no dispatch and IF untouched
+			g.emit(0x76)
+			g.emit(0x00)
+			continue
+		}
+		lastEI = false
 		switch k := r.Intn(16); {
 		case k < 3:
 			g.emit(0xfb) // EI
+			lastEI = true
 		case k < 5:
 			g.emit(0xf3) // DI
 		case k == 5:
